@@ -201,6 +201,7 @@ pub fn check_single(e: &Entry, ver: u32, val: &Val, containers: &[Container], ou
             st.add("not_representable_skipped", 1);
             return;
         }
+        Err(WireErr::Opaque) => return check_single_opaque(e, ver, val, containers, out, st),
         Err(x) => vcommon::machinery_error(&format!("model cannot encode its own value: {:?}", x)),
     };
     let mbytes = &enc.bytes;
@@ -435,6 +436,63 @@ pub fn check_single(e: &Entry, ver: u32, val: &Val, containers: &[Container], ou
     }
 }
 
+/// Library types whose wire format is not modelled: round trip and consumption in every
+/// container (C01), header (C02), schema-driven reader must consume the bytes exactly (C12).
+pub fn check_single_opaque(e: &Entry, ver: u32, val: &Val, containers: &[Container], out: &mut Vec<Finding>, st: &mut Stats) {
+    let vals = std::slice::from_ref(val);
+    let expect = canon(&e.ty, val);
+    for &c in containers {
+        let mut ck = Ck { e, ver, c, ctx: Ctx::Single, vals, out };
+        st.add("C01.states", 1);
+        st.add("C01.opaque_states", 1);
+        st.add("transitions", 2);
+        let mut bytes = vec![];
+        if let Err(err) = e.ops.save(c, ver, Ctx::Single, vals, &mut bytes) {
+            ck.fail(&["C01"], if err.is_panic() { "save_panic" } else { "save_failed" }, op_msg(&err));
+            continue;
+        }
+        if matches!(c, Container::Plain | Container::NoSchema) {
+            let h = wire::header(wire::CURRENT_LIB_VERSION, ver, false);
+            if bytes.len() < HEADER_LEN || bytes[..HEADER_LEN] != h[..] {
+                ck.fail(&["C02"], "container_vs_reference", "header differs from documented".into());
+            }
+        }
+        let sentinel = matches!(c, Container::Bare | Container::NoSchema | Container::Plain);
+        let mut input = bytes.clone();
+        if sentinel {
+            input.extend_from_slice(&[0xA5; 7]);
+        }
+        let mut r = CountR { data: &input, pos: 0 };
+        match e.ops.load(c, ver, Ctx::Single, &mut r) {
+            Err(err) => ck.fail(&["C01"], if err.is_panic() { "load_panic" } else { "load_failed" }, op_msg(&err)),
+            Ok(l) => {
+                if !l.raw.is_empty() {
+                    ck.fail(&["C01"], "roundtrip_value", format!("invalid state after load: {}", l.raw.join("; ")));
+                } else if canon(&e.ty, &l.vals[0]) != expect {
+                    ck.fail(&["C01"], "roundtrip_value", format!("loaded {} expected {}", l.vals[0].short(), expect.short()));
+                }
+                if r.pos != bytes.len() {
+                    ck.fail(&["C01"], "roundtrip_consumed", format!("reader consumed {} of {} bytes written", r.pos, bytes.len()));
+                }
+            }
+        }
+        if c == Container::Bare {
+            let schema = e.ops.schema(ver);
+            if sread::in_domain(&schema) {
+                st.add("C12.states", 1);
+                st.add("C12.opaque_states", 1);
+                let mut cur = sread::Cur { b: &bytes, pos: 0 };
+                let mut toks = vec![];
+                match sread::sread(&schema, &mut cur, &mut toks, 0) {
+                    Err(m) => ck.fail(&["C12"], "schema_driven_parse", m),
+                    Ok(()) if cur.pos != bytes.len() => ck.fail(&["C12"], "schema_driven_parse", format!("schema-driven reader consumed {} of {} bytes", cur.pos, bytes.len())),
+                    Ok(()) => {}
+                }
+            }
+        }
+    }
+}
+
 /// One (type, version, context, element list): bulk containers, Bare format.
 pub fn check_bulk(e: &Entry, ver: u32, ctx: Ctx, vals: &[Val], out: &mut Vec<Finding>, st: &mut Stats) {
     if !ctx_accepts(ctx, vals.len()) {
@@ -444,7 +502,7 @@ pub fn check_bulk(e: &Entry, ver: u32, ctx: Ctx, vals: &[Val], out: &mut Vec<Fin
     let cval = ctx_val(ctx, vals);
     let enc = match encode(&cty, &cval, ver) {
         Ok(x) => x,
-        Err(WireErr::NotRepresentable(_)) => return,
+        Err(WireErr::NotRepresentable(_)) | Err(WireErr::Opaque) => return,
         Err(x) => vcommon::machinery_error(&format!("model cannot encode bulk value: {:?}", x)),
     };
     let mbytes = &enc.bytes;
